@@ -39,6 +39,10 @@ func properties() []Property {
 			Harnesses: []HarnessSpec{
 				{Name: "H_C10_unauthorized", Profile: "bit", RPCCoverage: true, Quick: b("signerlen", 50), Thorough: b("signerlen", 64), Covers: []string{"authority-succeeds-with-valid-content", "rpc:forwarder.PauseProtocol", "rpc:forwarder.UnpauseProtocol", "rpc:forwarder.PauseCrossChains", "rpc:forwarder.UnpauseCrossChains", "rpc:forwarder.ReplaceDepositForBurn", "rpc:executor.PauseAction", "rpc:executor.UnpauseAction", "rpc:adapter.UpdateParams"}},
 			}},
+		{ID: "C12", Assumptions: []string{aSummaries, aModels, aE3, "one inductive step from arbitrary pre-existing statistics: up to preEntries amount entries and preEntries count entries whose keys coincide with the new transfer's keys or differ in one component (source, destination protocol, destination counterparty, denom)", "pre-state invariant (bound): totals < 10^70, amounts < 10^60, counts < 2^64-1 — the statistics overflow paths (deliberately swallowed by DispatchPayload) are outside the claim", "denomination change is exercised with a harness controller registered under ACTION_SWAP on the internal route"},
+			Harnesses: []HarnessSpec{
+				{Name: "H_C12_step", Profile: "bit", Quick: b("preEntries", 1), Thorough: b("preEntries", 2), Covers: []string{"pre-state-built", "transfer-refused", "transfer-succeeded"}},
+			}},
 		{ID: "C18", Assumptions: []string{aSummaries, aModels, aE1, "the passthrough payload is an all-zero byte slice whose LENGTH is symbolic in [0, maxlen] (the hook reads only len)"},
 			Harnesses: []HarnessSpec{
 				{Name: "H_C18_limit", Profile: "bit", Quick: b("updates", 2, "maxlen", 70000), Thorough: b("updates", 3, "maxlen", 5000000), Covers: []string{"over-limit", "within-limit", "params-unreadable"}},
